@@ -16,6 +16,7 @@ import (
 	"io"
 	"math/big"
 	"strings"
+	"time"
 )
 
 // ---------------------------------------------------------------------------
@@ -1087,4 +1088,12 @@ func specEscapeLetter(c byte) byte {
 		return '\\'
 	}
 	return 0
+}
+
+// specDateRoundTrips: the six calendar fields are what time.Date gives back for them (no
+// field was normalised into its neighbour): the fields denote a real instant.
+func specDateRoundTrips(ts []int, nsecs int) bool {
+	date := time.Date(ts[0], time.Month(ts[1]), ts[2], ts[3], ts[4], ts[5], nsecs, time.UTC)
+	return ts[0] == date.Year() && time.Month(ts[1]) == date.Month() && ts[2] == date.Day() &&
+		ts[3] == date.Hour() && ts[4] == date.Minute() && ts[5] == date.Second()
 }
